@@ -5,9 +5,19 @@
 //	notdsl  type-correct Go that is not valid DSL                                  (only panic / timeout / located matter)
 //	dsl     valid DSL generated from an abstract rule description that is printed along, so that the Coq validation model
 //	        can predict accept / reject; accepted rules are also run on a probe file (nil nodes, panics)
+//	struct  generated file structures: several matcher functions (equal names, blank names, methods), local helper
+//	        functions of every signature / body shape with matching calls, custom filter functions with native calls of
+//	        many arguments, init functions, statements that are not rules      (only panic / timeout / located matter)
+//
+// Process structure: the command started by the check is a supervisor. It re-executes itself as a child (-child) that
+// generates the cases deterministically and announces each one ({"begin":...}) before loading it. A fatal runtime error
+// (stack overflow, out of memory: not recoverable by recover()) or a silent child is attributed to the announced case, which
+// is reported with obs.kind "crash" / "timeout"; the child is restarted behind that case (-skip). The child's goroutine
+// stacks are capped (debug.SetMaxStack) so that unbounded recursion dies quickly instead of eating 1 GB first.
 package main
 
 import (
+	"bufio"
 	"encoding/json"
 	"flag"
 	"fmt"
@@ -27,7 +37,7 @@ import (
 )
 
 type Obs struct {
-	Kind    string `json:"kind"` // ok | error | panic | timeout
+	Kind    string `json:"kind"` // ok | error | panic | timeout | crash (the process died: fatal runtime error)
 	Err     string `json:"err,omitempty"`
 	Located bool   `json:"located"`
 }
@@ -88,8 +98,81 @@ type Alt struct {
 type Atom struct {
 	Src  string   `json:"src"`
 	Vars []string `json:"vars"`          // variables the atom refers to ("$$" included)
-	Chk  string   `json:"chk,omitempty"` // kind | object | tag | version | "" : which name table the argument is checked against
+	Chk  string   `json:"chk,omitempty"` // kind | object | tag | version | binary | "" : which name table the argument is checked against
 	Arg  string   `json:"arg,omitempty"`
+	// binary: a comparison of two operands; operand classes lit (literal / named constant / folded constant expression),
+	// line, size, valueint, text (of a variable)
+	Eq bool   `json:"eq,omitempty"` // the operator is == or !=
+	L  string `json:"l,omitempty"`
+	R  string `json:"r,omitempty"`
+}
+
+type operand struct {
+	src, cls, v string
+}
+
+// an operand of a comparison; str selects the string-typed family (Text, string constants)
+func genOperand(rng *rand.Rand, str bool) operand {
+	v := pick(rng, varPool)
+	mv := fmt.Sprintf("m[%q]", v)
+	if str {
+		switch rng.Intn(7) {
+		case 0:
+			return operand{`"a"`, "lit", ""}
+		case 1:
+			return operand{"`b`", "lit", ""}
+		case 2:
+			return operand{"cA", "lit", ""}
+		case 3:
+			return operand{`("a" + "b")`, "lit", ""}
+		case 4:
+			return operand{"cA + cB", "lit", ""}
+		default:
+			return operand{mv + ".Text", "text", v}
+		}
+	}
+	switch rng.Intn(12) {
+	case 0:
+		return operand{"4", "lit", ""}
+	case 1:
+		return operand{"c4", "lit", ""}
+	case 2:
+		return operand{"(2 + 2)", "lit", ""}
+	case 3:
+		return operand{"0x10", "lit", ""}
+	case 4:
+		return operand{"c4 * c8", "lit", ""}
+	case 5, 6:
+		return operand{mv + ".Line", "line", v}
+	case 7, 8:
+		return operand{mv + ".Type.Size", "size", v}
+	default:
+		return operand{mv + ".Value.Int()", "valueint", v}
+	}
+}
+
+func genBinaryAtom(rng *rand.Rand) Atom {
+	str := rng.Intn(3) == 0
+	l, r := genOperand(rng, str), genOperand(rng, str)
+	if rng.Intn(4) == 0 { // both constant: Go folds the comparison to a bool, irconv still converts the operands
+		for l.cls != "lit" {
+			l = genOperand(rng, str)
+		}
+		for r.cls != "lit" {
+			r = genOperand(rng, str)
+		}
+	}
+	op := []string{"==", "!=", "<", "<=", ">", ">="}[rng.Intn(6)]
+	if rng.Intn(2) == 0 {
+		op = []string{"==", "!="}[rng.Intn(2)]
+	}
+	a := Atom{Src: l.src + " " + op + " " + r.src, Chk: "binary", Eq: op == "==" || op == "!=", L: l.cls, R: r.cls, Vars: []string{}}
+	for _, o := range []operand{l, r} {
+		if o.v != "" {
+			a.Vars = append(a.Vars, o.v)
+		}
+	}
+	return a
 }
 
 type RuleDesc struct {
@@ -123,6 +206,9 @@ func genAtom(rng *rand.Rand) Atom {
 	q := func(s string) string { return fmt.Sprintf("%q", s) }
 	mv := fmt.Sprintf("m[%q]", v)
 	mw := fmt.Sprintf("m[%q]", w)
+	if rng.Intn(5) == 0 {
+		return genBinaryAtom(rng)
+	}
 	switch rng.Intn(17) {
 	case 0:
 		return Atom{Src: mv + ".Pure", Vars: []string{v}}
@@ -194,7 +280,52 @@ func genTemplate(rng *rand.Rand) string {
 	return sb.String()
 }
 
+// rules that are valid except possibly for what their templates refer to: several alternatives with different variable sets,
+// a valid filter or none, Report / Suggest templates with and without interpolation
+func genTemplateRule(rng *rand.Rand) RuleDesc {
+	var d RuleDesc
+	pats := []string{"f($x)", "g($x, $y)", "$x + $y", "$x - $z", "$x = $y", "$xs[$x]", "-$x", "f($*xs)"}
+	n := 2 + rng.Intn(2)
+	for i := 0; i < n; i++ {
+		var a Alt
+		a.Src = pick(rng, pats)
+		p, info, err := gogrep.Compile(gogrep.CompileConfig{Fset: token.NewFileSet(), Src: a.Src, WithTypes: true})
+		if err == nil {
+			a.OK = true
+			a.Tag = int(p.NodeTag())
+			for nm := range info.Vars {
+				a.Vars = append(a.Vars, nm)
+			}
+			sort.Strings(a.Vars)
+		}
+		if a.Vars == nil {
+			a.Vars = []string{}
+		}
+		d.Alts = append(d.Alts, a)
+	}
+	d.Atoms = []Atom{}
+	if rng.Intn(2) == 0 {
+		a := Atom{Src: `m["x"].Pure`, Vars: []string{"x"}}
+		d.Atoms = append(d.Atoms, a)
+		d.Where = a.Src
+	}
+	tm := func() string {
+		return pick(rng, []string{"msg", "use h instead", "$x", "$y", "$$", "h($x, $y)", "$z", "$xs", "$x$y", "cost $5", "$x and $$"})
+	}
+	d.Report = tm()
+	if rng.Intn(2) == 0 {
+		d.Suggest = tm()
+	}
+	if rng.Intn(4) == 0 {
+		d.At = pick(rng, []string{"x", "y", "$$"})
+	}
+	return d
+}
+
 func genRule(rng *rand.Rand) RuleDesc {
+	if rng.Intn(6) == 0 {
+		return genTemplateRule(rng)
+	}
 	var d RuleDesc
 	d.Comment = rng.Intn(5) == 0
 	n := 1 + rng.Intn(3)
@@ -256,7 +387,7 @@ func bq(s string) string {
 
 func renderRule(d RuleDesc) string {
 	var sb strings.Builder
-	sb.WriteString("package gorules\n\nimport \"github.com/quasilyte/go-ruleguard/dsl\"\n\nfunc g(m dsl.Matcher) {\n\tm.")
+	sb.WriteString("package gorules\n\nimport \"github.com/quasilyte/go-ruleguard/dsl\"\n\nconst (\n\tcA = \"a\"\n\tcB = \"b\"\n\tc4 = 4\n\tc8 = 8\n)\n\nfunc g(m dsl.Matcher) {\n\tm.")
 	var alts []string
 	for _, a := range d.Alts {
 		alts = append(alts, bq(a.Src))
@@ -349,6 +480,26 @@ var notDSL = []string{
 	"func g(m dsl.Matcher) { m.Match(`$x + $y`).Where(m[`x`].Value.Int() == 1.5).Report(`x`) }",
 	"func g(m dsl.Matcher) { m.Match(`$x + $y`).Suggest(``) }",
 	"func g(m dsl.Matcher) { m.MatchComment(`x`).Do(nil) }",
+	// shapes that used to crash Load (fixed in /repo; kept as a regression catalogue)
+	"func _(m dsl.Matcher) { m.Match(`$x + $y`).Report(`x`) }\nfunc _(m dsl.Matcher) { m.Match(`$x - $y`).Report(`y`) }",
+	"type A struct{}\ntype B struct{}\nfunc (A) g(m dsl.Matcher) { m.Match(`$x + $y`).Report(`x`) }\nfunc (B) g(m dsl.Matcher) { m.Match(`$x - $y`).Report(`y`) }",
+	"type A struct{}\nfunc (A) g(m dsl.Matcher) { m.Match(`$x + $y`).Report(`x`) }\nfunc g(m dsl.Matcher) { m.Match(`$x - $y`).Report(`y`) }",
+	"func g(m dsl.Matcher) { f := func(xs ...int) bool { return true }; m.Match(`$x + $y`).Where(f(1, 2)).Report(`x`) }",
+	"func g(m dsl.Matcher) { f := func(v dsl.Var, xs ...int) bool { return v.Pure }; m.Match(`$x + $y`).Where(f(m[`x`])).Report(`x`) }",
+	"func g(m dsl.Matcher) { f := func(v dsl.Var, xs ...dsl.Var) bool { return v.Pure }; m.Match(`$x + $y`).Where(f(m[`x`], m[`y`], m[`x`])).Report(`x`) }",
+	"func g(m dsl.Matcher) { f := func() (ok bool) { return }; m.Match(`$x + $y`).Where(f()).Report(`x`) }",
+	"func g(m dsl.Matcher) { f := func(v dsl.Var) (ok bool) { return }; m.Match(`$x + $y`).Where(f(m[`x`])).Report(`x`) }",
+	"import \"fmt\"\nfunc flt(ctx *dsl.VarFilterContext) bool { return fmt.Sprintf(\"\"" + strings.Repeat(", 1", 256) + ") == \"\" }\nfunc g(m dsl.Matcher) { m.Match(`$x + $y`).Where(m[`x`].Filter(flt)).Report(`x`) }",
+	"import \"fmt\"\nfunc flt(ctx *dsl.VarFilterContext) bool { return fmt.Sprint(" + strings.Repeat("1, ", 300) + "1) == \"\" }\nfunc g(m dsl.Matcher) { m.Match(`$x + $y`).Where(m[`x`].Filter(flt)).Report(`x`) }",
+	"import \"fmt\"\nfunc flt(ctx *dsl.VarFilterContext) bool { return fmt.Sprintf(\"\"" + strings.Repeat(", 1", 255) + ") == \"\" }\nfunc g(m dsl.Matcher) { m.Match(`$x + $y`).Where(m[`x`].Filter(flt)).Report(`x`) }",
+	// comparisons of two constants (Go folds them to a bool, irconv converts the operands)
+	"func g(m dsl.Matcher) { m.Match(`$x + $y`).Where(\"a\" != \"b\").Report(`x`) }",
+	"func g(m dsl.Matcher) { m.Match(`$x + $y`).Where(m[`x`].Pure && \"a\" == \"a\").Report(`x`) }",
+	"const c1, c2 = 1, 2\nfunc g(m dsl.Matcher) { m.Match(`$x + $y`).Where(c1 != c2 || m[`x`].Pure).Report(`x`) }",
+	"func g(m dsl.Matcher) { m.Match(`$x + $y`).Where(2 > 1).Report(`x`) }",
+	"func g(m dsl.Matcher) { m.Match(`$x + $y`).Where(4 < m[`x`].Type.Size).Report(`x`) }",
+	"func g(m dsl.Matcher) { m.Match(`$x + $y`).Where(4 == m[`x`].Type.Size && \"a\" != m[`x`].Text).Report(`x`) }",
+	"func g(m dsl.Matcher) { m.Match(`$x + $y`).Where(m[`x`].Line == m[`y`].Type.Size).Report(`x`) }",
 	"func g(m dsl.Matcher) { m.MatchComment().Report(`x`) }",
 	"func g(m dsl.Matcher) { m.Match().Report(`x`) }",
 }
@@ -445,26 +596,60 @@ type Case struct {
 	NRep   int       `json:"nrep"`
 }
 
+// Begin announces a case before it is loaded: if the process dies, the supervisor knows which input did it.
+type Begin struct {
+	Begin  int    `json:"begin"`
+	Stream string `json:"stream"`
+	Src    string `json:"src"`
+}
+
+func crashCase(begin []byte, kind, detail string) []byte {
+	var b Begin
+	json.Unmarshal(begin, &b)
+	out, _ := json.Marshal(Case{Stream: b.Stream, ID: b.Begin, Src: b.Src, Obs: Obs{Kind: kind, Err: detail}})
+	return out
+}
+
 func main() {
 	seed := flag.Int64("seed", 1, "PRNG seed")
 	nbytes := flag.Int("bytes", 300, "cases of stream bytes")
 	ndsl := flag.Int("dsl", 600, "cases of stream dsl")
+	nstruct := flag.Int("struct", 300, "cases of stream struct")
 	repo := flag.String("repo", "/repo", "repository (fixture rules files)")
 	tmp := flag.String("tmp", "", "scratch directory")
+	child := flag.Bool("child", false, "internal: generate and load (run by the supervisor)")
+	skip := flag.Int("skip", 0, "internal: generate but do not load the cases up to this id")
 	flag.Parse()
+	if !*child {
+		os.Exit(hutil.Supervise(os.Args[1:], crashCase))
+	}
+	hutil.ChildInit()
 	rng := rand.New(rand.NewSource(*seed))
-	enc := json.NewEncoder(os.Stdout)
+	stdout := bufio.NewWriterSize(os.Stdout, 1<<16)
+	defer stdout.Flush()
+	enc := json.NewEncoder(stdout)
 	t, err := hutil.CheckTarget(*tmp, "target/target.go", []byte(target))
 	if err != nil {
 		fmt.Fprintln(os.Stderr, err)
 		os.Exit(3)
 	}
 	id := 0
+	// begin reports whether the case is to be executed; the announcement reaches the supervisor before Load starts
+	begin := func(stream string, src string) bool {
+		id++
+		if id <= *skip {
+			return false
+		}
+		enc.Encode(Begin{Begin: id, Stream: stream, Src: src})
+		stdout.Flush()
+		return true
+	}
 	emit := func(c Case, full bool) {
 		if !full && c.Obs.Kind != "panic" && c.Obs.Kind != "timeout" && (c.Obs.Kind == "ok" || c.Obs.Located) && c.Run == "" && c.NilRep == 0 {
 			c.Src = ""
 		}
 		enc.Encode(c)
+		stdout.Flush()
 	}
 	runIt := func(c *Case, e *ruleguard.Engine) {
 		if e == nil {
@@ -498,7 +683,6 @@ func main() {
 		}
 	}
 	for i := 0; i < *nbytes; i++ {
-		id++
 		var src []byte
 		switch {
 		case i%10 == 0 || len(fixtures) == 0:
@@ -506,19 +690,27 @@ func main() {
 			rng.Read(src)
 		case i%10 == 1:
 			src = []byte("package gorules\n" + string(mutate(rng, []byte(renderRule(genRule(rng))))))
+		case i%10 == 2:
+			src = mutate(rng, []byte(genStructFile(rng)))
 		default:
 			src = mutate(rng, fixtures[rng.Intn(len(fixtures))])
 		}
+		if !begin("bytes", string(src)) {
+			continue
+		}
 		c := Case{Stream: "bytes", ID: id, Src: string(src)}
-		var e *ruleguard.Engine
-		e, c.Obs = loadObs(t.Fset, src)
-		_ = e
+		_, c.Obs = loadObs(t.Fset, src)
 		emit(c, false)
 	}
 	// ---- notdsl
 	for _, body := range notDSL {
-		id++
 		src := "package gorules\n\nimport \"github.com/quasilyte/go-ruleguard/dsl\"\n\nvar _ dsl.Matcher\n\n" + body + "\n"
+		if strings.HasPrefix(body, "import ") {
+			src = "package gorules\n\nimport \"github.com/quasilyte/go-ruleguard/dsl\"\n" + body + "\n"
+		}
+		if !begin("notdsl", src) {
+			continue
+		}
 		c := Case{Stream: "notdsl", ID: id, Src: src}
 		var e *ruleguard.Engine
 		e, c.Obs = loadObs(t.Fset, []byte(src))
@@ -529,13 +721,25 @@ func main() {
 	}
 	// ---- dsl
 	for i := 0; i < *ndsl; i++ {
-		id++
 		d := genRule(rng)
 		src := renderRule(d)
+		if !begin("dsl", src) {
+			continue
+		}
 		c := Case{Stream: "dsl", ID: id, Src: src, Rule: &d}
 		var e *ruleguard.Engine
 		e, c.Obs = loadObs(t.Fset, []byte(src))
 		runIt(&c, e)
 		emit(c, true)
+	}
+	// ---- struct
+	for i := 0; i < *nstruct; i++ {
+		src := genStructFile(rng)
+		if !begin("struct", src) {
+			continue
+		}
+		c := Case{Stream: "struct", ID: id, Src: src}
+		_, c.Obs = loadObs(t.Fset, []byte(src))
+		emit(c, false)
 	}
 }
